@@ -62,6 +62,8 @@ def hx(s):
 
 
 def other_fs_available():
+    if os.environ.get("VERIF_C06_NO_OTHER_FS"):
+        return False
     try:
         return os.path.isdir(SHM) and os.access(SHM, os.W_OK) and os.stat(SHM).st_dev != os.stat(tempfile.gettempdir()).st_dev
     except OSError:
@@ -667,6 +669,39 @@ def classify(xvc, sc, kind, stderr="", step=None, memo=None):
     return None
 
 
+def state_class_wrong_object(w, k):
+    """the class of a wrong-object failure at step k decided on the observed STATES (no re-run, so nothing
+    depends on the timing of a second execution): every cache object that went wrong in this step holds
+    exactly the bytes the storage held for it before the step, those stored bytes are a proper prefix of the
+    committed ones, and an upload that fails after writing half has run before -> the bring copied faithfully
+    what a partial upload had left behind (the open finding partial-upload-then-bring)"""
+    if k < 1 or k >= len(w.obs) or w.eff[k - 1]["op"] != "bring":
+        return None
+    if not any(st["op"] == "send" and has_fault(st, "p") for st in w.eff[:k - 1]):
+        return None
+    if has_fault(w.eff[k - 1], "p"):
+        return None              # the download itself wrote a partial file: not this class
+    prev, cur = w.obs[k - 1], w.obs[k]
+    truth = {}
+    for i in (0, 2):
+        if i in w.obs[0]["repos"]:
+            truth[i] = dict(w.obs[0]["repos"][i]["cache"])
+    found = False
+    for i, rp in cur["repos"].items():
+        g = w.gidx[w.guids[i]]
+        for addr, b in rp["cache"].items():
+            if prev["repos"].get(i, {}).get("cache", {}).get(addr) == b or addr.startswith("?"):
+                continue
+            want = truth.get(g, {}).get(addr)
+            if want is None or want == b:
+                continue
+            stored = prev["st"].get("%d/%s" % (g, addr))
+            if stored != b or not (len(b) < len(want) and want.startswith(b)):
+                return None
+            found = True
+    return "partial-upload-then-bring" if found else None
+
+
 def classify_scenario(xvc, sc, fails, stderr_at, twin=None):
     """fails: [(kind, step)] of one scenario -> {(kind, step): class}; the paired run with TMPDIR on the repository's
     file system, when it was made, is the first counterfactual"""
@@ -811,6 +846,8 @@ def run(chk, replay=None):
     for idx, (nm, sc, w, kinds) in enumerate(pending):
         for (kind, _k), (k, what) in kinds.items():
             klass = klass_of[(idx, (kind, _k))]
+            if klass is None and kind == "wrong-object":
+                klass = state_class_wrong_object(w, k)
             dist["oracle_failures"][kind] = dist["oracle_failures"].get(kind, 0) + 1
             dist["oracle_failure_classes"][str(klass)] = dist["oracle_failure_classes"].get(str(klass), 0) + 1
             key = (kind, klass)
